@@ -157,13 +157,30 @@ const CREATED: [(&str, Option<i32>); 14] = [
     ("/share/zoneinfo/c18z/j", None), ("/etc/zoneinfo/c18z/j", Some(9 * 3600 + 720)),
 ];
 
+/// One file whose zone has a transition, so that the two directions of a conversion differ:
+/// +01:13:00 before 2000-01-01T00:00:00Z, +03:14:00 from then on.
+const STEP_FILE: &str = "/tmp/c18z/step";
+fn tzif_step() -> Vec<u8> {
+    let mut b = Vec::new();
+    b.extend_from_slice(b"TZif");
+    b.push(0);
+    b.extend_from_slice(&[0u8; 15]);
+    for n in [0u32, 0, 0, 1, 2, 4] { b.extend_from_slice(&n.to_be_bytes()); }
+    b.extend_from_slice(&946_684_800i32.to_be_bytes()); // the transition time
+    b.push(1); // ... switches to local time type 1
+    b.extend_from_slice(&4380i32.to_be_bytes()); b.push(0); b.push(0);
+    b.extend_from_slice(&11640i32.to_be_bytes()); b.push(0); b.push(0);
+    b.extend_from_slice(b"CCC\0");
+    b
+}
+
 fn prepare_machine() -> bool {
     static READY: std::sync::OnceLock<bool> = std::sync::OnceLock::new();
     *READY.get_or_init(|| {
         CREATED.iter().all(|(path, z)| {
             let content = match z { None => b"this is not a TZif file\n".to_vec(), Some(o) => tzif_fixed(*o) };
             creatable(path) && ensure_file(path, &content).is_some()
-        })
+        }) && ensure_file(STEP_FILE, &tzif_step()).is_some()
     })
 }
 
